@@ -369,8 +369,15 @@ impl Prop for PTime {
         plan["dst"] = json!(rng.chance(1, 3));
         // now and then the entry or the reference was last modified / read before 1970
         if rng.chance(1, 6) {
-            let k = *rng.pick(&["em", "rm", "ea", "ra"]);
-            plan[k] = json!([1_900_000_000i64 + rng.below(200_000_000) as i64, rng.below(1_000_000_000)]);
+            // (one of them, or all four: the order of two such timestamps is the order of any two)
+            if rng.chance(1, 2) {
+                for k in ["em", "rm", "ea", "ra"] {
+                    plan[k] = json!([1_820_000_000i64 + rng.below(280_000_000) as i64, rng.below(1_000_000_000)]);
+                }
+            } else {
+                let k = *rng.pick(&["em", "rm", "ea", "ra"]);
+                plan[k] = json!([1_900_000_000i64 + rng.below(200_000_000) as i64, rng.below(1_000_000_000)]);
+            }
             plan["dst"] = json!(false);
             plan["now_rel"] = json!("real");
         }
